@@ -38,9 +38,11 @@ def triples(a):
 def run_part(ctx, vh, tag, args):
     out_dir = os.path.join(ctx.scratch, "c13")
     os.makedirs(out_dir, exist_ok=True)
-    rc, out = sh([vh, "c13", "-out", out_dir, "-tag", str(tag)] + args, timeout=1800)
+    rc, out = sh([vh, "c13", "-out", out_dir, "-tag", str(tag)] + args, timeout=1800, env=dict(os.environ, VH_DEBUG="1"))
     if rc != 0:
-        raise Broken("C13 harness run failed (the real code panicked or the harness could not decode a record)", out[-3000:])
+        out = "\n".join(l for l in out.splitlines() if not l.startswith(("I[", "D[", "E[")))
+        raise Broken("C13 harness run failed (the real code panicked or the harness could not decode a record)",
+                     "args: %s\n%s" % (" ".join(args), out[-3000:]))
     rep = json.load(open(os.path.join(out_dir, "c13_report_%s.json" % tag)))
     cases = json.load(open(os.path.join(out_dir, "c13_cases_%s.json" % tag)))
     ok, cout = common.coqc_file(rep["files"][0], cwd=out_dir)
